@@ -8,6 +8,7 @@ import (
 	"testing"
 
 	"github.com/tidwall/geojson"
+	"github.com/tidwall/geojson/geometry"
 	"pgregory.net/rapid"
 	"verifharness/fw"
 	"verifharness/gj"
@@ -132,7 +133,11 @@ func c08Check(c c08Case) fw.Outcome {
 	if !repr && base.NumPoints() != alt.NumPoints() {
 		return fw.Failf(label, "NumPoints %d vs %d under %+v; text %q", base.NumPoints(), alt.NumPoints(), c.Opts, c.Text)
 	}
-	if m := sameBehaviourNoCount(base, alt, finite); m != "" {
+	var own []geojson.Object
+	if finite {
+		own = ownProbes(ref)
+	}
+	if m := sameBehaviourNoCount(base, alt, finite, own...); m != "" {
 		return fw.Failf(label, "answers differ between default options and %+v: %s; text %q", c.Opts, m, c.Text)
 	}
 	// non-trivial: the options actually change the representation
@@ -140,7 +145,41 @@ func c08Check(c c08Case) fw.Outcome {
 	return fw.OK(label, changed)
 }
 
-func sameBehaviourNoCount(a, b geojson.Object, predicates bool) string {
+// ownProbes builds probe objects from the document's own positions: points at its vertices and the short
+// lines between consecutive vertices, which touch the geometry exactly where an index prunes.
+func ownProbes(ref *refjson.Ref) []geojson.Object {
+	var pos []refjson.Pos
+	var walk func(r *refjson.Ref)
+	walk = func(r *refjson.Ref) {
+		if r.Type == "Point" {
+			pos = append(pos, r.Pt)
+		}
+		pos = append(pos, r.Line...)
+		for _, rg := range r.Rings {
+			pos = append(pos, rg...)
+		}
+		for _, c := range r.Children {
+			walk(c)
+		}
+	}
+	walk(ref)
+	var out []geojson.Object
+	step := 1
+	if len(pos) > 90 {
+		step = len(pos) / 90
+	}
+	for i := 0; i < len(pos); i += step {
+		p := geometry.Point{X: pos[i].X, Y: pos[i].Y}
+		out = append(out, geojson.NewPoint(p))
+		if i+1 < len(pos) {
+			q := geometry.Point{X: pos[i+1].X, Y: pos[i+1].Y}
+			out = append(out, geojson.NewLineString(geometry.NewLine([]geometry.Point{p, q}, nil)))
+		}
+	}
+	return out
+}
+
+func sameBehaviourNoCount(a, b geojson.Object, predicates bool, extra ...geojson.Object) string {
 	ra, rb := a.Rect(), b.Rect()
 	if !(sameF(ra.Min.X, rb.Min.X) && sameF(ra.Min.Y, rb.Min.Y) && sameF(ra.Max.X, rb.Max.X) && sameF(ra.Max.Y, rb.Max.Y)) {
 		return fmt.Sprintf("Rect %v vs %v", ra, rb)
@@ -156,6 +195,7 @@ func sameBehaviourNoCount(a, b geojson.Object, predicates bool) string {
 	}
 	probes := append([]geojson.Object{}, c06Probes...)
 	probes = append(probes, geojson.NewPoint(ra.Center()), geojson.NewRect(ra), geojson.NewSimplePoint(ra.Min))
+	probes = append(probes, extra...)
 	for i, p := range probes {
 		if x, y := a.Contains(p), b.Contains(p); x != y {
 			return fmt.Sprintf("Contains(probe %d %s) %v vs %v", i, p.JSON(), x, y)
@@ -215,7 +255,7 @@ func c08Gen(t *rapid.T) c08Case {
 		o = defaultOptsModel
 		o.IndexChildren = rapid.SampledFrom([]int{0, 1, 2, 3, 4, 64}).Draw(t, "ichildren")
 		o.IndexGeometry = rapid.SampledFrom([]int{0, 1, 2, 3, 4, 5, 6, 64}).Draw(t, "igeom")
-		o.IndexGeometryKind = rapid.IntRange(0, 2).Draw(t, "ikind")
+		o.IndexGeometryKind = rapid.SampledFrom([]int{0, 1, 2, 2}).Draw(t, "ikind")
 	case 1: // representation options
 		o = defaultOptsModel
 		o.AllowSimplePoints = rapid.Bool().Draw(t, "simple")
